@@ -725,9 +725,11 @@ type verifSBRapidReporter struct {
 func (r verifSBRapidReporter) Violation(key string, format string, args ...interface{}) {
 	r.c.Violation(key, format, args...)
 }
-func (r verifSBRapidReporter) Fatalf(format string, args ...interface{}) { r.rt.Fatalf(format, args...) }
-func (r verifSBRapidReporter) Class(label string)                          { r.c.Class(label) }
-func (r verifSBRapidReporter) Excluded(key string)                         { r.c.Excluded(key) }
+func (r verifSBRapidReporter) Fatalf(format string, args ...interface{}) {
+	r.rt.Fatalf(format, args...)
+}
+func (r verifSBRapidReporter) Class(label string)  { r.c.Class(label) }
+func (r verifSBRapidReporter) Excluded(key string) { r.c.Excluded(key) }
 
 type verifSBPlainReporter struct {
 	t   *testing.T
@@ -739,8 +741,8 @@ func (r verifSBPlainReporter) Violation(key string, format string, args ...inter
 	kit.FailPlain(r.t, r.pid, key, format, args...)
 }
 func (r verifSBPlainReporter) Fatalf(format string, args ...interface{}) { r.t.Fatalf(format, args...) }
-func (r verifSBPlainReporter) Class(string)                               {}
-func (r verifSBPlainReporter) Excluded(key string)                        { r.t.Logf("KNOWN key=%s (excluded)", key) }
+func (r verifSBPlainReporter) Class(string)                              {}
+func (r verifSBPlainReporter) Excluded(key string)                       { r.t.Logf("KNOWN key=%s (excluded)", key) }
 
 // Known-finding class: CancelPrune(prevRoot, OldRoot) issued by a rollback while pruning is blocked is
 // buffered; the next block committed on prevRoot re-creates the prevRoot|Old waiting-list entry; when
@@ -763,7 +765,7 @@ type verifSBRoot struct {
 type verifSBSim struct {
 	rep verifSBReporter
 	fx  *verifSBFixture
-	g  *verifSBGen
+	g   *verifSBGen
 
 	queue   core.Queue
 	inQueue [][]byte // roots added to the queue and not yet handed back (mirror, FIFO)
@@ -1150,4 +1152,3 @@ func (s *verifSBSim) invariant() {
 	}
 	s.checkLive("event " + fmt.Sprint(len(s.trace)))
 }
-
